@@ -55,14 +55,6 @@ Definition construct (ps : patterns) (is_prefix : bool) : R rdef :=
 Definition rd_new (ps : patterns) := construct ps false.      (* ResourceDef::new *)
 Definition rd_prefix_of (ps : patterns) := construct ps true. (* ResourceDef::prefix *)
 
-(* str::strip_prefix *)
-Fixpoint strip_prefix (pre s : bytes) : option bytes :=
-  match pre, s with
-  | [], _ => Some s
-  | x :: pre', y :: s' => if x =? y then strip_prefix pre' s' else None
-  | _ :: _, [] => None
-  end.
-
 (* ResourceDef::static_match *)
 Definition static_match (is_prefix : bool) (pattern s : bytes) : option N :=
   match strip_prefix pattern s with
